@@ -77,7 +77,7 @@ META = {
               "Props::update_from (wildcard branch, progressive prefix lookup, direct-prefix extraction, first-wins set): for every flat dotted-key configuration outside class F11b and every "
               "module path the captured property names are exactly those of the segment matcher and every value belongs to a matching entry (C17.capture_eq_spec_partial, via a normal-form "
               "invariant of the compartmentalised tree + flat-reading preservation); include order is irrelevant for every include/node script (include_order_invariant/_irrelevant); "
-              "typed slots keep their type under every access sequence (typed_slot_keeps_type). F11b (scalar entry equal to the literal prefix of a wildcard entry) is an open finding with a "
+              "typed slots keep their type under every script of opens / uses of any number of live or stale Prop<T> handles / clears, from any start state (typed_slot_keeps_type over the handle-table machine mtrace; typed_rule_sound_for_model). F11b (scalar entry equal to the literal prefix of a wildcard entry) is an open finding with a "
               "decide-d witness (capture_eq_spec_witness). Tied to the code by replaying generated include/node/props/typed scripts through SimBuilder and Cfg::capture_for_into."),
         design_ref="DESIGN.md §5 C17, §6 F6/F11/F13",
         note=("Trusted: Lean kernel; axioms propext/Classical.choice/Quot.sound; serde_yml parsing and serde typed deserialisation; the string<->segment-list reading of dotted keys; "
